@@ -20,8 +20,10 @@ fn md5hex(s: &str) -> String {
     format!("{:x}", md5::compute(s.as_bytes()))
 }
 
+/// the library's own route (parse_with_catalog + try_from): this property is about what that route does over time,
+/// so the harness's cached-catalogue shortcut is not used here
 fn convert_text(is_xml: bool, text: &str) -> Option<Model> {
-    match if is_xml { convert_ctehexml_fast(text) } else { convert_bdl_fast(text) } {
+    match if is_xml { crate::convert::convert_ctehexml_text(text) } else { crate::convert::convert_bdl_text(text) } {
         Conv::Ok(m) => Some(m),
         _ => None,
     }
@@ -446,6 +448,73 @@ impl C05 {
         }
     }
 
+    /// (i) conversion history: several different projects converted one after the other on this thread; each
+    /// export must equal what a fresh process exports for that project alone
+    fn convert_history(&self, case: &Case, obs: &mut Obs) {
+        let mut rng = case.rng();
+        let mut files = crate::corpus::ctehexml_files();
+        rng.shuffle(&mut files);
+        let k = 4.min(files.len());
+        let mut order = vec![];
+        for f in files.iter().take(k) {
+            let name = f.file_name().unwrap().to_string_lossy().to_string();
+            let (is_xml, full, _) = project_texts(f);
+            obs.eval();
+            let here = convert_text(is_xml, &full).and_then(|m| m.as_json().ok()).map(|j| md5hex(&j)).unwrap_or_else(|| "ERR".into());
+            order.push(name.clone());
+            match fresh("convert", f, case.index) {
+                Some(h) if h.len() == 32 || h == "ERR" => {
+                    obs.count("conversions_after_other_projects_compared");
+                    if h != here {
+                        obs.violation(
+                            "conversion-depends-on-projects-converted-before",
+                            format!("{} converted after {:?} on the same thread exports md5 {} but alone in a fresh process {}", name, &order[..order.len() - 1], here, h),
+                            json!({"order": order}),
+                        );
+                        return;
+                    }
+                }
+                other => obs.inconclusive(&format!("fresh-process-helper-failed:{:?}", other.map(|s| s.chars().take(20).collect::<String>()))),
+            }
+        }
+        obs.nontrivial(crate::rng::fnv64(order.join(">").as_bytes()));
+        // the same project re-converted after the user edited one of its own materials (same name, other value)
+        let b = gen_building(&mut rng, &BuildCfg::full());
+        let mut b2 = b.clone();
+        let mut edited = None;
+        for m in b2.materials.iter_mut() {
+            if let Some(crate::gen::bdl::AVal::Num(c)) = m.get("CONDUCTIVITY").cloned() {
+                m.set("CONDUCTIVITY", crate::gen::bdl::AVal::Num(c * 2.0 + 0.1));
+                edited = Some(m.name.clone());
+                break;
+            }
+        }
+        if let Some(mat) = edited {
+            let t1 = b.ctehexml(&print_blocks(&mut rng, &b.blocks(), &Layout::hulc()), "");
+            let t2 = b2.ctehexml(&print_blocks(&mut rng, &b2.blocks(), &Layout::hulc()), "");
+            let scratch = crate::core::tmp_dir().join(format!("c05hist.{}.ctehexml", std::process::id()));
+            if std::fs::write(&scratch, &t2).is_ok() {
+                obs.eval();
+                let _ = convert_text(true, &t1);
+                let here = convert_text(true, &t2).and_then(|m| m.as_json().ok()).map(|j| md5hex(&j)).unwrap_or_else(|| "ERR".into());
+                match fresh("convert", &scratch, case.index + 1) {
+                    Some(h) if h.len() == 32 || h == "ERR" => {
+                        obs.count("conversions_after_an_earlier_version_compared");
+                        if h != here {
+                            obs.violation(
+                                "conversion-depends-on-projects-converted-before",
+                                format!("a generated project converted after its own earlier version (material {:?} edited) exports md5 {} but alone in a fresh process {}", mat, here, h),
+                                json!({"edited_material": mat}),
+                            );
+                        }
+                    }
+                    other => obs.inconclusive(&format!("fresh-process-helper-failed:{:?}", other.map(|s| s.chars().take(20).collect::<String>()))),
+                }
+                let _ = std::fs::remove_file(&scratch);
+            }
+        }
+    }
+
     /// (h) auxiliary: the 2-thread workload of examples/miri_c05.rs under Miri (undefined behaviour and data race
     /// interpreter) with 8 scheduler seeds; anything that keeps Miri from running is inconclusive, never a violation
     fn miri(&self, case: &Case, obs: &mut Obs) {
@@ -573,6 +642,7 @@ impl Property for C05 {
     fn workloads(&self, tier: Tier) -> Vec<(String, u64)> {
         vec![
             ("miri".into(), tier.pick(0, 1)),
+            ("convert-history".into(), tier.pick(24, 400)),
             ("repeat".into(), real_project_files().len() as u64),
             ("threads".into(), tier.pick(6, 60)),
             ("id-locality".into(), tier.pick(120, 4000)),
@@ -594,6 +664,7 @@ impl Property for C05 {
             ("history:same ids, shades removed".into(), 3),
             ("history:same ids, other climate zone".into(), 3),
             ("reference_pairs_compared".into(), 6),
+            ("conversions_after_other_projects_compared".into(), 80),
             ("appended:space-with-walls".into(), 5),
         ]
     }
@@ -607,6 +678,7 @@ impl Property for C05 {
     fn run_case(&self, case: &Case, obs: &mut Obs) {
         match case.kind {
             "miri" => self.miri(case, obs),
+            "convert-history" => self.convert_history(case, obs),
             "repeat" => self.repeat(case, obs),
             "threads" => self.threads(case, obs),
             "id-locality" => self.id_locality(case, obs),
